@@ -17,6 +17,26 @@ CLAIMED = {
               "in-process differential execution of serializer, frame parser and incremental parser (60k cases per quick run, allocator-level observation of reservations)."),
         note=TB + "Rust's f64 Display/FromStr are parameters (doubles are lexemes in the model); parser stack depth is runtime behaviour (C06).",
         ref="DESIGN.md section 5 C20, Appendix D1"),
+    "C01": dict(
+        text=("Proof: failure atomicity for every command and argument list, the uniqueness/typing invariant for every reachable state (induction over histories), "
+              "and laws pinning the reference semantics (GET/SET, NX/XX, APPEND, GETRANGE bounds for all integers, INCRBY/DECRBY incl. i64 edges, RENAME with TTL, "
+              "DEL/EXISTS, MGET, RANDOMKEY, FLUSHDB/FLUSHALL) are Lean theorems about KS.step; the same executable function is run against the real server over TCP "
+              "(13k commands per quick run, every command x existing type, dumps after histories and refused commands)."),
+        note=TB + "Numeric argument syntax is Rust's str::parse; error replies compared as 'an error'; TTL expiry timing is C02; zset/stream values are opaque here.",
+        ref="DESIGN.md section 5 C01"),
+    "C03": dict(
+        text=("Proof: refused commands change nothing; after any history no empty list/set/hash is stored and set members / hash fields are unique; LRANGE/LTRIM window "
+              "arithmetic for all integers (incl. the stop-before-start case the pinned code got wrong), push/pop order, LREM accounting, set algebra as set theory, "
+              "SPOP as a checked relation, HSET upsert/count, HINCRBY overflow - Lean theorems about KS.step, tied to the server by TCP differential histories "
+              "(14k commands per quick run, random picks checked as relations)."),
+        note=TB + "Replies out of hash maps/sets compared as sorted collections; SINTER's scan order follows Redis.",
+        ref="DESIGN.md section 5 C03"),
+    "C15": dict(
+        text=("Proof: ID monotonicity as a history invariant (partial at the u64 sequence wrap, with witness), explicit-ID refusal without effect, XRANGE/XREVRANGE = filter "
+              "over the sorted entry list for all bounds and counts (the real halving binary search is proved to meet its contract), XREAD = filter >, XLEN = length, "
+              "XDEL/XTRIM as filters, ID text parsing; tied to the real Stream and handle_x* handlers in-process (27k evaluations per quick run, source switches detected by regex)."),
+        note=TB + "Wall-clock reading is an input of the model; auto IDs are a checked relation; the compare_exchange retry path is assumed not to fire on one thread.",
+        ref="DESIGN.md section 5 C15"),
 }
 
 NOT_YET = {}
